@@ -331,7 +331,7 @@ def run(report, p):
         g = cfg_of(f)
         counters = {}
         for n in g.nodes:
-            if n.kind == "stmt" and isinstance(n.ast, ast.AugAssign) and isinstance(n.ast.op, ast.Add) and isinstance(n.ast.target, ast.Name):
+            if n.kind == "stmt" and isinstance(n.ast, ast.AugAssign) and isinstance(n.ast.op, ast.Add) and isinstance(n.ast.target, ast.Name) and not (isinstance(n.ast.value, ast.Constant) and not n.ast.value.value):
                 counters.setdefault(n.ast.target.id, set()).add(n.id)
         for c, tg in p.calls[f.qual]:
             if any(t.endswith("logger.error") for t in tg) and c.args:
@@ -374,9 +374,56 @@ def run(report, p):
                 st = parent(c)
                 var = st.targets[0].id if isinstance(st, ast.Assign) and isinstance(st.targets[0], ast.Name) else None
                 used = var is not None and any(isinstance(x, ast.Attribute) and x.attr == "success" for x in walk_no_nested(cmdf.node))
-                incs = [n for n in g.nodes if n.kind == "stmt" and isinstance(n.ast, ast.AugAssign) and "fail" in norm(n.ast.target)]
+                incs = [n for n in g.nodes if n.kind == "stmt" and isinstance(n.ast, ast.AugAssign) and isinstance(n.ast.op, ast.Add) and "fail" in norm(n.ast.target) and not (isinstance(n.ast.value, ast.Constant) and not n.ast.value.value)]
                 guarded = any(any(t.kind == "test" and "success" in norm(t.ast) for t, l in g.control_deps(n, transitive=False)) for n in incs)
                 r4.check(used and guarded, cmdf, c, "the per-file verification result is not turned into a failure count")
+                # per call site: the verdict of THIS seal call reaches a test whose 'not successful' branch always counts a failure
+                if var is not None:
+                    from sa.flow import defs_of as _defs_of
+                    from .common import branch_where
+
+                    dd = _defs_of(cmdf)
+                    cn = g.node_for(c)
+                    # names holding this call's verdict: `success = <var>[...].success` with this call reaching
+                    holders = set()
+                    for n in g.nodes:
+                        if n.kind == "stmt" and isinstance(n.ast, ast.Assign) and len(n.ast.targets) == 1 and isinstance(n.ast.targets[0], ast.Name) and any(isinstance(x, ast.Attribute) and x.attr == "success" for x in ast.walk(n.ast.value)):
+                            try:
+                                from_call = any(any(s2[0] == "call" and len(s2) > 4 and s2[4] is c for s2 in subterms(o)) for o in pr.origins(n.ast.value, cmdf))
+                            except AnalysisError:
+                                from_call = False
+                            if from_call:
+                                holders.add((n.ast.targets[0].id, n.id))
+                    tests = []
+                    for t in g.nodes:
+                        if t.kind != "test":
+                            continue
+                        names = {x.id for x in ast.walk(t.ast) if isinstance(x, ast.Name)}
+                        for hname, hid in holders:
+                            if hname in names and any(d[1] == hid for d in dd.reaching(hname, t)):
+                                tests.append(t)
+                        if var in names and any(isinstance(x, ast.Attribute) and x.attr == "success" for x in ast.walk(t.ast)) and any(d[1] == cn.id for d in dd.reaching(var, t)):
+                            tests.append(t)
+                        elif t not in tests:
+                            for x in ast.walk(t.ast):
+                                if isinstance(x, ast.Attribute) and x.attr == "success":
+                                    try:
+                                        if any(any(s2[0] == "call" and len(s2) > 4 and s2[4] is c for s2 in subterms(o)) for o in pr.origins(x, cmdf)):
+                                            tests.append(t)
+                                            break
+                                    except AnalysisError:
+                                        pass
+                    okv = bool(tests)
+                    stops = {h.id for h in g.nodes if h.kind == "loop"} | {g.exit.id}
+                    wit = None
+                    for t in tests:
+                        bad = branch_where(t.ast, False)  # the branch on which the (canonical) success condition is false
+                        for m, l in t.succ:
+                            if l == bad and m.id not in {i.id for i in incs}:
+                                pth = g.find_path(m, stops, avoid={i.id for i in incs}) if m.id not in stops else [m]
+                                if pth is not None:
+                                    okv, wit = False, g.fmt_path(pth)
+                    r4.check(okv, cmdf, c, "the verdict of this seal call does not count a failure on its 'not successful' branch: an altered file sealed here leaves the exit code 0", witness=wit, construct=f"verdict of seal call not counted: {norm(c)[:50]}")
 
     # ------------------------------------------------------------------ R3.6
     r6 = report.rule(
@@ -396,6 +443,13 @@ def run(report, p):
         atoms = T.collect()
         roles = {a: classify_atom(a, f, None) for a in atoms}
         r6.instance(f, call, f"{f.name}: atoms {roles}")
+        import re as _re
+
+        for k in atoms:
+            m = _re.fullmatch(r"\s*(\w+)\s*(>=|>|!=|==)\s*(\d+)\s*", k)
+            if m and any(w in m.group(1) for w in ("fail", "new", "missing")):
+                okthr = (m.group(2), int(m.group(3))) in ((">", 0), ("!=", 0), (">=", 1))
+                r6.check(okthr, f, call, f"the exit decision tests `{k.strip()}`: a single discrepancy (count 1) does not reach the failure exit", construct=f"counter threshold {k.strip()}")
         is_verify = any(r == "single-found" for r in roles.values())
         has_new = any(r == "new" for r in roles.values())
         rows = 0
@@ -535,6 +589,26 @@ def run(report, p):
         r8.instance(f, f.node, f"{f.name}: branch conditions scanned")
     r8.check(True, None, None, "", construct=f"{nt} branch conditions scanned")
     report.extra["timestamp_tainted_parameters"] = sorted(f"{a}.{b}" for a, b in tparams)
+
+    # ------------------------------------------------------------------ R3.9
+    r9 = report.rule(
+        "R3.9",
+        "no silent no-op: every non-raising path through a shipped command function calls at least one function of the package that does work "
+        "(a dispatcher branch that returns without calling its worker makes the command exit 0 whatever the tree looks like)",
+        5,
+    )
+    for name, c in sorted(cmds.items()):
+        g = cfg_of(c)
+        work = set()
+        for call, tg in p.calls[c.qual]:
+            if any(t in p.funcs and not p.funcs[t].module.name.endswith(".logger") and not t.endswith(".__init__") for t in tg):
+                work.add(g.node_for(call).id)
+        if not work:
+            r9.note(f"{name}: does its work inline (no package call) - not a dispatcher")
+            continue
+        r9.instance(c, c.node, f"{name}: {len(work)} worker call site(s)")
+        path = g.find_path(g.entry, {g.exit.id}, avoid=work)
+        r9.check(path is None, c, c.node, f"`{name}` can return without having called any worker of the package", witness=g.fmt_path(path) if path else None, construct=f"{name}: path without worker call")
 
     # ---- rules shared with other properties (same mechanism, same rule, reported under every property it can break)
     include_rules(report, p, 'c08', ['R8.1', 'R8.2'], 'verify/diff look recorded entries up through the same routing')
